@@ -16,5 +16,5 @@ RULE = (
 ASSUMPTIONS = ["a stroke's value is never the id of a node living in another frame (labels are node ids; the GUI picks a new label)"]
 REQUIRED_CLASSES = {t: ["paint:erase", "paint:existing", "paint:new", "paint:overwrite:partial=1:total=0",
                         "paint:overwrite:partial=0:total=1", "cfg:3D"] for t in ("quick", "thorough")}
-run_shard, replay, minimise = make(C07Oracle, quick=(2400, 30), thorough=(4800, 50), profile="paint",
+run_shard, replay, minimise = make(C07Oracle, quick=(3200, 36), thorough=(6400, 50), profile="paint",
                                    cfg_kwargs={"seg": True})
